@@ -1,28 +1,26 @@
 (* C13 — otto's Math wrappers (builtin_math.go) where they are more than a
    pass-through to Go's math package, over the documented special-case
    contract of that package (math.Pow, math.Atan2, math.Max, math.Min,
-   math.Floor, binary64 addition).  Every cell of those contracts is what the
-   correspondence run observes on the real interpreter.
+   math.Floor, math.Copysign, binary64 subtraction of a number and its floor).
+   Every cell of those contracts is what the correspondence run observes on
+   the real interpreter.
 
-   Deviations from ES5 that this model reproduces:
-     class 1   Math.pow(1, NaN) = 1           (Go: Pow(1, y) = 1 for any y)
-     class 2   Math.round(0.49999999999999994) = 1   (Floor(x + 0.5): the sum rounds up to 1)
-     class 3   Math.round(n) = n + 1 for odd integers 2^52 < |n| < 2^53 (the sum is a tie)
-     class 9   Math.atan2(y, x) = +pi for y < 0, x < 0 when y / x underflows to +0
+   Deviation from ES5 that this model still reproduces:
      class 10  max / min / atan2 stop calling ToNumber on the remaining arguments
-               once a NaN has been seen *)
+               once a NaN has been seen
+   Repaired in /repo and therefore no longer in the model (the model is the
+   repaired code, equal to the spec on these points; classes 1 2 3 9 retired):
+     d8f8960 pow(1, NaN); 01da0fa round through Floor(x + 0.5); efc7ec6 atan2
+     sign when y / x underflows. *)
 From Coq Require Import ZArith Bool List Lia.
 From Otto Require Import Common.Double C13.SpecMath.
 Import ListNotations.
 Open Scope Z_scope.
 
-(* ---------- switches for the repairs in proposed_fixes/C13-*.diff ----------
-   All false on the recorded tree; flipped by the coordinator together with the
-   repair (the matching ..._refuted theorem and open finding are then removed). *)
-Definition fixed_pow : bool := false.        (* C13-pow-one-nan.diff *)
-Definition fixed_round : bool := false.      (* C13-round-exact.diff *)
-Definition fixed_atan2 : bool := false.      (* C13-atan2-sign.diff *)
-Definition fixed_tonumber : bool := false.   (* C13-tonumber-all-args.diff *)
+(* ---------- switch for the repair in proposed_fixes/C13-tonumber-all-args.diff ----------
+   false on the recorded tree; flipped together with the repair (the
+   ..._refuted theorem and the open finding are then removed). *)
+Definition fixed_tonumber : bool := false.
 
 (* ---------- max / min ---------- *)
 (* math.Max / math.Min on the arguments otto passes to them: never a NaN (the
@@ -71,23 +69,17 @@ Definition conv_model (fn : Z) (l : list Z) : Z :=
   else if fn =? 17 then 0
   else Z.min 1 (Z.of_nat (length l)).
 (* ---------- round ---------- *)
-(* value := math.Floor(number + 0.5); if value == 0 { value = Copysign(0, number) }
-   The binary64 sum is the exact sum N * 2^k rounded to nearest-even
-   (Common.Double.round_to_double rounds an integer to 53 significant bits;
-   scaling by 2^k does not change the rounding: no overflow, and k >= -1074). *)
-(* the exact sum x + 1/2 as N * 2^k, for x = S * 2^e *)
-Definition half_sum (S e : Z) : Z * Z :=
-  if -1 <=? e then (S * 2 ^ (e + 1) + 1, -1) else (S + 2 ^ (-1 - e), e).
-(* the integer math.Floor(number + 0.5) *)
-Definition round_int_model (S e : Z) : Z :=
-  let '(N, k) := half_sum S e in round_to_double N / 2 ^ (- k).
-Definition round_model (b : Z) : Z :=
-  if fixed_round then round_spec b else
-  match decode b with
-  | DNaN => nan_bits
-  | DInf _ => b
-  | DFin neg m e => enc_int_signed neg (round_int_model (if neg then - m else m) e)
-  end.
+(* value := math.Floor(number)
+   if number-value >= 0.5 { value++ }
+   if value == 0 { value = math.Copysign(0, number) }
+   For a finite x = S / d (d = 2^-e > 1) Floor is the exact floor f; the
+   binary64 difference x - f is exact (it lies in [0, 1) and is a multiple of
+   the unit in the last place of x), and f + 1 is exact (|f| < 2^52 whenever x
+   has a fraction).  For e >= 0, NaN and the infinities Floor returns its
+   argument and the test is false (0, NaN - NaN, Inf - Inf). *)
+Definition q_round_model (S d : Z) : Z :=
+  let f := S / d in if d <=? 2 * (S - f * d) then f + 1 else f.
+Definition round_model : Z -> Z := exact_unary q_round_model.
 
 (* ---------- pow ---------- *)
 Definition same_as (c : acl) : option rcl :=
@@ -116,10 +108,10 @@ Definition go_pow_tbl (cx cy : acl) : option rcl :=
   | _, _ => None
   end.
 
-(* builtinMathPow: if math.Abs(x) == 1 && math.IsInf(y, 0) { return NaN } *)
+(* builtinMathPow: if math.IsNaN(y) || (math.Abs(x) == 1 && math.IsInf(y, 0)) { return NaN } *)
 Definition otto_pow_tbl (cx cy : acl) : option rcl :=
   match cy with
-  | CNaN => if fixed_pow then Some RNaN else go_pow_tbl cx cy
+  | CNaN => Some RNaN
   | CInf _ => if abs_eq1 cx then Some RNaN else go_pow_tbl cx cy
   | _ => go_pow_tbl cx cy
   end.
@@ -140,17 +132,32 @@ Definition go_atan2_tbl (cy cx : acl) : option rcl :=
   | CFin _ _, CFin _ _ => None
   end.
 
-(* builtinMathAtan2: NaN pre-checks on y, then on x *)
+(* math.Copysign(r, y) on a table result *)
+Definition acl_sign (c : acl) : option bool :=
+  match c with CNaN => None | CInf s | CZero s | CFin s _ => Some s end.
+Definition copysign_rcl (r : rcl) (cy : acl) : rcl :=
+  match acl_sign cy, r with
+  | Some s, RInf _ => RInf s
+  | Some s, RZero _ => RZero s
+  | Some s, ROne _ => ROne s
+  | Some s, RApprox _ c => RApprox s c
+  | _, _ => r
+  end.
+
+(* builtinMathAtan2: NaN pre-checks on y, then on x, then
+   math.Copysign(math.Atan2(y, x), y) *)
 Definition otto_atan2_tbl (cy cx : acl) : option rcl :=
   match cy with
   | CNaN => Some RNaN
-  | _ => match cx with CNaN => Some RNaN | _ => go_atan2_tbl cy cx end
+  | _ => match cx with
+         | CNaN => Some RNaN
+         | _ => option_map (fun r => copysign_rcl r cy) (go_atan2_tbl cy cx)
+         end
   end.
 
-(* atan2.go: q := Atan(y / x); if x < 0 { if q <= 0 { return q + Pi }; return q - Pi } *)
-Definition gen_atan2_model (y x obs : Z) : bool :=
-  if negb fixed_atan2 && sgnb x && sgnb y && quotient_underflows y x then approx_const 48 obs PI_bits
-  else gen_atan2 y x obs.
+(* general regime: math.Atan2's quadrant result with the sign of y forced by
+   Copysign: exactly the sign / range facts of the specification *)
+Definition gen_atan2_model (y x obs : Z) : bool := gen_atan2 y x obs.
 
 (* ---------- one Math call ---------- *)
 Definition model_exact (fn : Z) (args : list Z) : option Z :=
@@ -175,11 +182,6 @@ Definition math_model (fn : Z) (args : list Z) (obs : Z) : bool :=
         tbl_pred (unary_tbl fn (classify x)) (gen_unary fn x) obs
   end.
 
-Definition pred_half_bits : Z := 0x3FDFFFFFFFFFFFFF.
-
-(* which listed deviation a Math call falls into (meaningful when model <> spec) *)
-Definition math_class (fn : Z) (args : list Z) : Z :=
-  if fn =? 12 then 1
-  else if fn =? 13 then (if arg args 0 =? pred_half_bits then 2 else 3)
-  else if fn =? 4 then 9
-  else 0.
+(* which listed deviation a Math call falls into (meaningful when model <> spec):
+   none is left for the values; the ToNumber call count is class 10 in Corr.v *)
+Definition math_class (fn : Z) (args : list Z) : Z := 0.
